@@ -2,6 +2,7 @@
   C18 — Presence reports who is subscribed (broker model; default matcher or any).
 -/
 import Emitter.Lemmas.Broker
+import Emitter.Lemmas.BrokerHistory
 namespace Emitter.C18
 open Emitter Emitter.Trie Emitter.Security Emitter.Broker
 
@@ -48,5 +49,53 @@ theorem notification_receivers (b : B) (h : Sync b) (event : String) (c : Conn) 
 
 theorem sync_step (auth : Auth) (b : B) (name : String) (r : Req) (h : Sync b) :
     Sync (step auth b name r).1 := Broker.sync_step auth b name r h
+
+/-- History level (specification: `Emitter/Spec/Subscriptions.lean`): after any well-formed
+history, the connections a status request lists — those the subscription index returns for the
+channel — are exactly the open connections holding in the set `A` of acknowledged, not yet
+removed subscriptions a filter that matches the channel … -/
+theorem status_history (auth : Auth) (b₀ : B) (h0 : Pristine b₀) (evs : List Spec.Ev)
+    (hwf : Spec.wellFormed evs = true) (ssid : Path) (c : Conn) (hc : c ∈ (run auth b₀ evs).conns) :
+    (c.alive && (((run auth b₀ evs).trie.root.lookup b₀.mode ssid).eraseDups).contains c.key) = true ↔
+      c.name ∈ Spec.receivers b₀.mode (Spec.run auth (Spec.init b₀) evs) ssid none :=
+  Broker.status_history auth b₀ h0 evs hwf ssid c hc
+
+/-- … and a notification about `ssid` goes — as a multiset, once each, the same JSON packet —
+to exactly the open connections holding in `A` a presence-change subscription
+(`system :: presence :: contract :: levels`, added by a presence request with `changes = true`,
+removed by one with `changes = false` or by the end of the connection) on the channel or on a
+parent of it. -/
+theorem notify_history (auth : Auth) (b₀ : B) (h0 : Pristine b₀) (evs : List Spec.Ev)
+    (hwf : Spec.wellFormed evs = true) (event : String) (c : Conn) (ssid : Path) (channel : Bytes) :
+    (notify (run auth b₀ evs) event c ssid channel).Perm
+      ((Spec.receivers b₀.mode (Spec.run auth (Spec.init b₀) evs) (presenceSsid ssid) none).map
+        (fun n => (n, Pkt.json (strBytes "emitter/presence/") (notifyFields event c channel)))) :=
+  Broker.notify_history auth b₀ h0 evs hwf event c ssid channel
+
+/-! non-vacuity: w1 watches `k/a/`, w2 watches it and cancels, c subscribes `k/a/` -/
+def demoAuth : Auth := fun banned ch _ =>
+  if banned.contains ch.key then none else if ch.key == [107] then some ⟨7, 0x3f⟩ else none
+
+def demo : List Spec.Ev :=
+  [.accept "w1" [1], .accept "w2" [2], .accept "c" [3],
+   .req "w1" (.presence 1 [107] [97, 47] false (some true)),
+   .req "w2" (.presence 2 [107] [97, 47] false (some true)),
+   .req "w2" (.presence 3 [107] [97] false (some false)),
+   .req "c" (.subscribe 4 [107, 47, 97, 47] 0)]
+
+set_option maxRecDepth 8000
+
+example : Spec.wellFormed demo = true := by decide +kernel
+example : (Spec.run demoAuth (Spec.init {}) demo).A =
+    [("w1", presenceSsid [7, 3238259379]), ("c", [7, 3238259379])] := by decide +kernel
+/-- the watchers of `k/a/` after the history: w1 only -/
+example : Spec.receivers .emitter (Spec.run demoAuth (Spec.init {}) demo) (presenceSsid [7, 3238259379]) none = ["w1"] := by
+  decide +kernel
+/-- who a status request on `k/a/` lists: c only -/
+example : Spec.receivers .emitter (Spec.run demoAuth (Spec.init {}) demo) [7, 3238259379] none = ["c"] := by
+  decide +kernel
+/-- and the model's last step did notify w1, and only w1 -/
+example : ((step demoAuth (run demoAuth {} (demo.take 6)) "c" (.subscribe 4 [107, 47, 97, 47] 0)).2.map Prod.fst) =
+    ["w1", "c"] := by decide +kernel
 
 end Emitter.C18
